@@ -280,7 +280,7 @@ func lemmaObligations(prog *Program, prop string, assumptions map[string]bool) [
 			continue
 		}
 		tr := &trans{prog: prog, key: "lemma." + lm.Name, vc: NewVC(prog), vals: nil, stateSort: map[string]Sort{"$next": "Int"}, known: map[string]bool{},
-			pure: map[string]*fnRef{}, assumed: map[string]bool{}, specRefs: map[string]*fnRef{}, globals: map[string]string{}, nobl: map[string]int{}, final: true, localAllocs: map[*ssa.Alloc]bool{}}
+			pure: map[string]*fnRef{}, assumed: map[string]bool{}, specRefs: map[string]*fnRef{}, globals: map[string]string{}, nobl: map[string]int{}, final: true, localAllocs: map[*ssa.Alloc]bool{}, heapRefs: map[string]string{}}
 		tr.entry = State{}
 		env := &Env{tr: tr, vc: tr.vc, pkgPath: lm.PkgPath, st: tr.entry, old: tr.entry, vars: map[string]SV{}, lets: map[string]Expr{}, errs: &tr.errs}
 		tr.axioms()
